@@ -120,6 +120,9 @@ func cmdCheck(args []string) {
 			continue
 		}
 		short := shortKeyOf(k)
+		if fn0 := L.funcs[k]; fn0 != nil {
+			short = L.funcKeyShort(fn0)
+		}
 		match := false
 		for _, re := range res {
 			if re.MatchString(short) {
